@@ -47,6 +47,9 @@ CFG = {
         "Swat4.C09.facts_fence_check",
         "Swat4.C09.facts_write_keys",
         "Swat4.C09.facts_decode_plain",
+        "Swat4.C09.usecases_resolvers_addr_preserving",
+        "Swat4.C09.usecases_resolvers_key_preserving",
+        "Swat4.C09.resAP_of_calls",
     ],
     # proved in the Lean files and used by other proofs, but NOT audited as property theorems: each is a
     # read-back of a definition, glue between two names, true by type, or a corollary of an audited theorem
@@ -129,7 +132,11 @@ CFG = {
                 "facts_writes_fenced / facts_tx_calls / facts_tx_provenance / facts_lock_key / facts_lock_setnx - the protocol shape the "
                 "machine hard-codes (writes only inside the TxPipelined closure on Guard's tx, lock key expression, SetNX with the lease "
                 "as TTL, token drawn in Guard, separate DEL in release) equals the shape regenerated from servers.go / redislock.go by a "
-                "go/ast inventory of every Redis write call site. The model is tied to "
+                "go/ast inventory of every Redis write call site. usecases_resolvers_addr_preserving / usecases_resolvers_key_preserving - the hypothesis "
+                "KeyPreserving (Init.resAP: the conflict callback returns a record of the address it was given, so the lock of the caller's address protects "
+                "the record the batch writes - the semantic link behind facts_lock_key) holds for the registry write of EVERY Add / Update / Remove call "
+                "that the program tree of EVERY modelled use case can issue, whatever the earlier replies (report, keepalive, probe success/retry/failure, REST "
+                "create/discover, refresh, revival, instance cleanup, listing, removal, both server cleaners); resAP_of_calls - hence Init.resAP for any system whose writers perform such calls. The model is tied to "
                 "servers.go / redislock by replaying generated command-level schedules on the real repository under a go-redis "
                 "hook and comparing traces, results and final keyspace.",
         "level_note": "Trusted: Lean kernel; axioms propext, Quot.sound, Classical.choice; Model/Store.lean + Model/StoreMachine.lean "
